@@ -76,6 +76,7 @@ class PdoSave(Contract):
     functions = ("canopen.pdo.base:PdoMap.subscribe", "canopen.pdo.base:PdoMap._update_data_size")
     props = ("C09",)
     cases = {"n=%d" % n: n for n in (0, 1, 2, 8)}
+    cases_thorough = {"n=%d" % n: n for n in (3, 4, 5, 6, 7)}
     max_paths = 3000
 
     def setup(self, w, case):
@@ -148,6 +149,7 @@ class PdoSaveRead(Contract):
                  "canopen.pdo.base:PdoVariable.__init__", "canopen.variable:Variable.__init__")
     props = ("C09",)
     cases = {"n=%d" % n: n for n in (0, 1, 2, 8)}
+    cases_thorough = {"n=%d" % n: n for n in (3, 4, 5, 6, 7)}
     max_paths = 3000
 
     def setup(self, w, case):
